@@ -7,20 +7,28 @@ CONFIG = dict(
                "every announced prefix withdrawn; withdrawals always passed on; a reported attribute never attached to an "
                "announced route; LOCAL_PREF/ORIGINATOR_ID/CLUSTER_LIST never attached for an external peer); complete finite "
                "classification tables (all type codes x all flag octets); a reset only from the section lengths, a repeated MP "
-               "attribute or the NLRI. The byte-level reference checker (valid UPDATE + RFC 7606 corruption list -> allowed "
-               "outcomes) is NOT proved against the model (statement check_run_ok_full); it is the oracle evaluated on the real "
-               "code for every generated case, and model and real code are diffed on the rendered bytes and the full Message "
-               "list. Packet half only: the RIB after rx_msg is out of scope of this version.",
+               "attribute or the NLRI. Byte level (check_run_ok_full): for EVERY codec, profile, peer kind, valid UPDATE and "
+               "RFC 7606 corruption list of the case language (USpec.wfCase; decidable, non-vacuous: nonvacuous_full) the "
+               "byte-level reference checker (valid UPDATE + corruption list -> allowed outcomes) accepts what the model makes of "
+               "the rendered bytes: never a panic or a stall, withdrawals kept, a reset only for a case whose damage touches the "
+               "block framing / NLRI location, treat-as-withdraw whenever a class demands it, a discardable malformed attribute "
+               "never on an announced route, the second copy of a duplicated attribute never believed. The same checker is the "
+               "oracle on the real code for every generated case, and model and real code are diffed on the rendered bytes and "
+               "the full Message list. Packet half only: the RIB after rx_msg is out of scope of this version.",
     level_note="Trusted: Lean kernel; axioms propext/Classical.choice/Quot.sound; hand-written model (checked only by the "
                "correspondence stream); the two renderers (Lean `render`, Rust harness) that turn (valid UPDATE, corruptions) "
                "into bytes - they are diffed byte for byte on every case; the byte-level oracle's own RFC tables (attribute "
-               "classes, value syntax). Not proved: byte-level checker vs model for all cases (oracle only). Out of scope: "
+               "classes, value syntax) and its well-formedness predicate wfCase, which includes by-construction facts of the "
+               "rendered item list (structOk: octet ranges, first occurrence, dup right after its first copy, MP values as "
+               "rendered; among generated cases it rejects only a repeated unrecognised type, 22 of 20000). Out of scope: "
                "end-to-end RIB effect (PeerSession::rx_msg / Table), attribute bodies of PREFIX_SID / TUNNEL_ENCAP / BGP-LS "
                "(opaque at this layer), families other than IPv4/IPv6 unicast+multicast.",
     lean_modules=["Rbgp.Wire.UpdateProps"],
     theorems=[
         "Rbgp.Wire.UProps.update_validated_ok",
         "Rbgp.Wire.UProps.validate_check_ok",
+        "Rbgp.Wire.UProps.check_run_ok_full",
+        "Rbgp.Wire.UProps.nonvacuous_full",
         "Rbgp.Wire.UProps.taw_no_reach",
         "Rbgp.Wire.UProps.must_taw_is_taw",
         "Rbgp.Wire.UProps.withdrawals_preserved",
@@ -55,8 +63,8 @@ CONFIG = dict(
     trusted_base=["model lean/Rbgp/Wire/{Model,Update}.lean of packet/src/bgp.rs parse_message UPDATE arm + validate_update",
                   "the two renderers of (valid UPDATE, corruptions): lean/Rbgp/Wire/Update.lean `render` and harness/pt/src/bin/"
                   "c05.rs `render` (diffed byte for byte on every case)",
-                  "the byte-level reference checker lean/Rbgp/Wire/UpdateSpec.lean `check` (oracle; its agreement with the model "
-                  "is not a theorem)"],
+                  "the byte-level reference checker lean/Rbgp/Wire/UpdateSpec.lean `check` (oracle on the real code; its agreement "
+                  "with the model is theorem check_run_ok_full)"],
     modelled_not_verified=["PeerSession::rx_msg / Table::insert|remove (end-to-end half: which routes the RIB holds afterwards)",
                            "is_as_loop filtering between validate_message and rx_msg",
                            "attribute bodies of PREFIX_SID, TUNNEL_ENCAP, BGP-LS (not parsed at this layer)"],
